@@ -858,63 +858,6 @@ func C01(e *core.Env) {
 	runC01(e, tg, rcases, "r", 20)
 	res.Note(fmt.Sprintf("random stream: %d formulas, %.1fs", len(rcases), time.Since(t0).Seconds()))
 
-	// ---- (iv') the same kind of formulas while OTHER profiles are being translated in the same process (the verdict of a
-	// profile must not depend on what else the process compiles at that moment)
-	t0 = time.Now()
-	{
-		stop := make(chan struct{})
-		var nwg sync.WaitGroup
-		noise := ProfileHeader + "violation:\n  - n1\n  - n2\nvalidations:\n  n1:\n    targetClass: ex.T\n    message: n\n    propertyConstraints:\n      ex.a / ex.b:\n        minCount: 1\n      ex.c | ex.d:\n        pattern: ^a\n  n2:\n    targetClass: ex.T\n    message: n\n    propertyConstraints:\n      ex.e:\n        nested:\n          propertyConstraints:\n            ex.f:\n              in: [ a ]\n"
-		for w := 0; w < 3; w++ {
-			nwg.Add(1)
-			go func() {
-				defer nwg.Done()
-				for {
-					select {
-					case <-stop:
-						return
-					default:
-						func() {
-							defer func() { recover() }()
-							validator.GenerateRego(noise, false, nil)
-						}()
-					}
-				}
-			}()
-		}
-		ccases := []c01case{}
-		for i := 0; i < len(rcases) && i < e.Pick(40, 200); i++ {
-			ccases = append(ccases, c01case{rcases[i].f, "random-while-others-compile"})
-		}
-		for i := 0; i < len(qcases) && i < e.Pick(40, 200); i += 3 {
-			ccases = append(ccases, c01case{qcases[i].f, "quantifier-while-others-compile"})
-		}
-		// many small batches: each batch is one translation of its own
-		for start := 0; start < len(ccases); start += 4 {
-			end := start + 4
-			if end > len(ccases) {
-				end = len(ccases)
-			}
-			g := tg
-			if ccases[start].stream == "quantifier-while-others-compile" {
-				g = qg
-			}
-			same := true
-			for _, c := range ccases[start:end] {
-				if c.stream != ccases[start].stream {
-					same = false
-				}
-			}
-			if !same {
-				continue
-			}
-			runC01Batch(e, g, ccases[start:end], fmt.Sprintf("cc%d", start))
-		}
-		close(stop)
-		nwg.Wait()
-	}
-	res.Note(fmt.Sprintf("while-others-compile stream: %.1fs", time.Since(t0).Seconds()))
-
 	// ---- (v) histories: the verdict of a profile that relies on a built-in prefix does not depend on which other
 	// profiles the process compiled before (in particular profiles that bind the same prefix name to something else)
 	t0 = time.Now()
@@ -1002,6 +945,63 @@ func C01(e *core.Env) {
 		res.Count("stream=history")
 	}
 	res.Note(fmt.Sprintf("history stream: %.1fs", time.Since(t0).Seconds()))
+
+	// ---- (iv') the same kind of formulas while OTHER profiles are being translated in the same process (the verdict of a
+	// profile must not depend on what else the process compiles at that moment)
+	t0 = time.Now()
+	{
+		stop := make(chan struct{})
+		var nwg sync.WaitGroup
+		noise := ProfileHeader + "violation:\n  - n1\n  - n2\nvalidations:\n  n1:\n    targetClass: ex.T\n    message: n\n    propertyConstraints:\n      ex.a / ex.b:\n        minCount: 1\n      ex.c | ex.d:\n        pattern: ^a\n  n2:\n    targetClass: ex.T\n    message: n\n    propertyConstraints:\n      ex.e:\n        nested:\n          propertyConstraints:\n            ex.f:\n              in: [ a ]\n"
+		for w := 0; w < 3; w++ {
+			nwg.Add(1)
+			go func() {
+				defer nwg.Done()
+				for {
+					select {
+					case <-stop:
+						return
+					default:
+						func() {
+							defer func() { recover() }()
+							validator.GenerateRego(noise, false, nil)
+						}()
+					}
+				}
+			}()
+		}
+		ccases := []c01case{}
+		for i := 0; i < len(rcases) && i < e.Pick(40, 200); i++ {
+			ccases = append(ccases, c01case{rcases[i].f, "random-while-others-compile"})
+		}
+		for i := 0; i < len(qcases) && i < e.Pick(40, 200); i += 3 {
+			ccases = append(ccases, c01case{qcases[i].f, "quantifier-while-others-compile"})
+		}
+		// many small batches: each batch is one translation of its own
+		for start := 0; start < len(ccases); start += 4 {
+			end := start + 4
+			if end > len(ccases) {
+				end = len(ccases)
+			}
+			g := tg
+			if ccases[start].stream == "quantifier-while-others-compile" {
+				g = qg
+			}
+			same := true
+			for _, c := range ccases[start:end] {
+				if c.stream != ccases[start].stream {
+					same = false
+				}
+			}
+			if !same {
+				continue
+			}
+			runC01Batch(e, g, ccases[start:end], fmt.Sprintf("cc%d", start))
+		}
+		close(stop)
+		nwg.Wait()
+	}
+	res.Note(fmt.Sprintf("while-others-compile stream: %.1fs", time.Since(t0).Seconds()))
 
 	keys := []string{}
 	for k := range res.Distribution {
